@@ -1,40 +1,82 @@
-"""C04 (component level) — check configuration (see tools/props.py for the keys)."""
+"""C04 (component level + editor level) — check configuration (see tools/props.py for the keys)."""
 from propslib import comp_scope
 
 PROP = dict(
-    extract=[],
-    lean_targets=["Chewing.Props.C04"],
-    runs=[dict(bin="comp")],
-    scope=comp_scope("comp", "cedi"),
+    extract=["editor"],
+    lean_targets=["Chewing.Props.C04", "Chewing.Props.C04Editor"],
+    runs=[dict(bin="comp"), dict(bin="editor")],
+    scope=comp_scope("comp", "cedi", "ed"),
     level="proof",
     exhaustive=False,
     rule="one evaluation = one call of a public method of the real Composition / CompositionEditor, recomputed by the "
          "model from the implementation's own pre-state (`comp` records; `cedi` = the inner composition after a "
          "CompositionEditor call; result selections compared as a sorted multiset); "
-         "distinct = distinct record text; preconditions-violating calls are generated in separate sessions",
-    trusted_base=["no kernel enumeration: all theorems are structural (simp/omega over lists)"],
-    assumptions=["component level (DESIGN §12 stage A): Composition and CompositionEditor only; the lift through the "
-                 "editor state machine and the conversion-engine obligations selection_shown / break_not_spanned are "
-                 "later work packages",
-                 "push_selection precondition ValidSelection (start < stop <= len); DESIGN F31: the public API accepts "
-                 "invalid selections (refutation proved, compared against the model in separate sessions)",
+         "distinct = distinct record text; preconditions-violating calls are generated in separate sessions. Editor level "
+         "(`ed` records, run editor): one evaluation = one public operation of the real Editor in a generated history (keys in "
+         "all four states, candidate / symbol choices, Tab break/glue, auto-commit, API calls, option / layout / engine "
+         "changes), recomputed by the editor model from the implementation's own full pre-state and compared on the complete "
+         "post-state; on every such step the ledger oracle oracle_c04.rs evaluates the property itself on the real editor "
+         "(choices and break points carried from the pre- to the post-snapshot through the edit and the auto-commit, "
+         "displayed / committed text over every choice, every conversion answer of the step against breaks and choices)",
+    trusted_base=["kernel evaluation (decide +kernel) only in the non-vacuity examples of Props/C04Editor.lean (concrete histories over "
+                  "C03's engine model); all theorems are structural (simp/omega over lists, case analysis over the arms of the "
+                  "state machine, induction over histories)",
+                  "hook H1 (Editor::verif_snapshot, read-only) and the CompositionEditor forwarding probe"],
+    assumptions=["component level (Props/C04.lean): Composition and CompositionEditor, every state and operation; push_selection "
+                 "precondition ValidSelection (start < stop <= len); DESIGN F31: the public API accepts invalid selections "
+                 "(refutation proved, compared against the model in separate sessions)",
+                 "editor level (Props/C04Editor.lean, linked, audited with this property by tools/audit_axioms.py; Props/C04.lean "
+                 "itself cannot import them: C01's proofs import it): stated for every environment satisfying C01's EnvOK, from every "
+                 "state satisfying C01's invariant (EditorInv; a fresh editor does), along every history of valid operations "
+                 "(AllowedW: at strength True outside C01's class Known)",
+                 "'the user edits them' = opEdits / opTouches (decidable, pre-state and operation): over-approximations read off the "
+                 "state machine arm by arm (a key of the default arm counts as typing whether or not the layout accepts it; Tab inside "
+                 "counts as a break whether the code sets glue or break); the auto-commit is not a function of the key alone (it depends on "
+                 "the conversion): a step either carries the choice or its auto-commit reached it (AutoCommitReaches), and then the choice "
+                 "was committed whole with its text (choice_committed_by_autocommit)",
+                 "the 'shown' / 'committed' / 'not spanned' clauses (choice_shown, choice_displayed, choice_shown_along, "
+                 "choice_committed_by_autocommit, break_not_spanned_editor, break_respected_along) are for the environment whose engine IS "
+                 "C03's model (Link.EngineIsC03: buffers of at most 128 symbols without an empty spelling) and, for the text clauses, states "
+                 "in which every buffered syllable has a word (C01's invariant at strength True: one character per symbol); the survival "
+                 "clauses (selection_survives_op, choice_persists_along, break_survives_op, break_persists_along) need neither",
+                 "Carried / BreakCarried identify 'the same choice / break' by text, kind, length and the symbols under it (the symbol "
+                 "behind the break): positions are existential because the shift depends on what the environment answered",
                  "the to_remove + reverse swap_remove loop is modelled as a filter: order of `selections` not modelled",
-                 "usize overflow of `start += 1` not modelled; `end -= n` underflow modelled for the overflow-checks profile"],
+                 "usize overflow of `start += 1` not modelled; `end -= n` underflow modelled for the overflow-checks profile",
+                 "editor oracle (oracle_c04.rs): steps with a word-less syllable in the buffer are skipped (one character per symbol is "
+                 "needed to read the commit string: stat c04_skipped_no_word); a candidate chosen for a range that STARTS at a user break is "
+                 "rare in the generated histories of the quick tier (stat c04_choice_starting_at_break; thorough: 20-26 per run); counters "
+                 "are printed at session boundaries and every 256th step (the last partial block is not counted)"],
 )
 
 MANIFEST = dict(
-    text="Lean 4 theorems (Chewing/Props/C04.lean) over an executable model of every public method of Composition "
-         "(src/conversion/mod.rs) and CompositionEditor: the composition invariant (|symbols| = |gaps|, gap 0 = Begin, no "
-         "other Begin, selections non-empty / in range / pairwise disjoint / one character per symbol) is preserved by every "
-         "operation under ValidSelection (refuted without it); an exact characterisation of the selections after each "
-         "operation gives selection_survives (a choice not edited inside is still present, shifted by the documented "
-         "amount), push_replaces_only_overlapping, and the break-point frame (which operations can clear or create a break). "
-         "Tie: per-step correspondence of the model with the real code from the implementation's pre-state on random, "
-         "collision-biased operation sequences, plus a specification-level ledger oracle on the real code. Component "
-         "level only: the engine obligations (selection_shown, break_not_spanned) and the lift to key histories are "
-         "stated as remaining obligations.",
-    note="Trusted: Lean kernel (axioms propext, Classical.choice, Quot.sound only), the harness and the compiled model "
-         "driver, the guarded forwarding probe for the crate-private CompositionEditor.",
-    technique="Lean 4 proof (invariants, list frame equations, induction over operation lists) over an executable model; "
-              "sampled step-wise model/implementation correspondence; ledger oracle",
+    text="Lean 4 theorems (Chewing/Props/C04.lean, Chewing/Props/C04Editor.lean). Component level, over an executable model of every "
+         "public method of Composition (src/conversion/mod.rs) and CompositionEditor: the composition invariant (|symbols| = |gaps|, gap 0 = "
+         "Begin, no other Begin, selections non-empty / in range / pairwise disjoint / one character per symbol) is preserved by every "
+         "operation under ValidSelection (refuted without it); an exact characterisation of the selections after each operation gives "
+         "selection_survives (a choice not edited inside is still present, shifted by the documented amount), "
+         "push_replaces_only_overlapping, and the break-point frame (which operations can clear or create a break). Editor level (round 2, "
+         "linked to C01 / C03 / C05), over the editor state-machine model - every key in all four states, every other public operation, "
+         "every environment: each operation makes ONE edit of a kind listed by opKinds (decidable, from the pre-state and the key: "
+         "Backspace / Delete, typing at the cursor, Tab glue / break, clear by Enter / commit / Esc, a candidate chosen for begin..end, a "
+         "symbol replaced; everything else - cursor keys, opening / paging / cancelling lists, mode toggles, next alternative, learning, "
+         "option / layout / engine / dictionary calls, jumps - nothing) followed by at most one auto-commit (apply_shape, proved arm by "
+         "arm); selection_survives_op / selection_survives_key: a choice the operation does not edit inside (opEdits) is carried into the "
+         "post-state - same text and kind, over the same symbols, shifted - unless the auto-commit reached it, in which case it was "
+         "committed whole and with its chosen text (choice_committed_by_autocommit); choice_persists_along: along every history a choice is "
+         "carried to the end or some step edited it; choice_shown / choice_displayed / choice_shown_along: the pre-edit text displayed over "
+         "the range is the chosen text (C03.selection_shown through Link.EngineIsC03 and C01's invariant); break_survives_op, "
+         "break_persists_along, break_not_spanned_editor, break_respected_along: a break stays (before the same symbol) until a step touches "
+         "that gap (opTouches) and no interval of any alternative spans it. Tie: per-step correspondence of both models with the real code "
+         "from the implementation's own pre-state (Composition / CompositionEditor calls on collision-biased sequences; every operation of "
+         "generated editor histories), a specification-level ledger oracle on the real Composition, and oracle_c04.rs: the property "
+         "evaluated on the real Editor after every step (choices and breaks of the pre-snapshot carried through the edit and the "
+         "auto-commit, displayed and committed text over every choice, every conversion answer of the step against breaks and choices).",
+    note="Trusted: Lean kernel (axioms propext, Classical.choice, Quot.sound only), the harness and the compiled model driver, the read-only "
+         "snapshot hook and the guarded forwarding probe for the crate-private CompositionEditor. The text clauses at the editor level are "
+         "for the environment whose engine is C03's model (Link.EngineIsC03) in states where every buffered syllable has a word; the "
+         "positions of a carried choice / break are existential (Carried / BreakCarried pin them by the symbols underneath).",
+    technique="Lean 4 proof (invariants, list frame equations, case analysis over the modelled key-event state machine, induction over "
+              "operation lists and editor histories) over executable models; sampled step-wise model/implementation correspondence; "
+              "ledger oracles on the real Composition and the real Editor",
 )
